@@ -75,7 +75,9 @@ def make(rnd, k):
             gv += 1
         else:
             driver.append(['call', nm, [I(n)], []])
-    return {'funs': funs, 'driver': driver}
+    sc = {'funs': funs, 'driver': driver}
+    if rnd.random() < .15: sc['null_streams'] = True      # sys.stdout / sys.stderr are None in this process
+    return sc
 
 
 def monitor(sc, obs):
